@@ -52,6 +52,27 @@ fn check_internal_edge(dd: u8) {
 #[kani::proof] #[kani::unwind(34)] fn edge_internal_dd2() { check_internal_edge(2) }
 #[kani::proof] #[kani::unwind(34)] fn edge_internal_dd3() { check_internal_edge(3) }
 
+/// the walk alone (no sorted variant, whose sort dominates the cost): larger delta_depth in the quick tier
+fn check_internal_walk(dd: u8) {
+  let h: u64 = kani::any();
+  kani::assume(h < sp::n_hash(29 - dd));
+  let am1 = (1u32 << dd) - 1;
+  let len = (am1 as usize) << 2;
+  let e = Layer::internal_edge(h, dd);
+  assert!(e.len() == len, "C14 internal edge has 4*2^delta - 4 cells");
+  let k: usize = kani::any();
+  kani::assume(k < len);
+  let x = e[k];
+  assert!((x >> (2 * dd as u32)) == h, "C14 internal edge cells are descendants of the cell");
+  let (i, j) = sub_ij(x, dd);
+  let side = k / am1 as usize; let off = (k % am1 as usize) as u32;
+  let (ei, ej) = match side { 0 => (off, 0), 1 => (am1, off), 2 => (am1 - off, am1), _ => (0, am1 - off) };
+  assert!((i, j) == (ei, ej), "C14 k-th cell of the walk S->E->N->W is the k-th border cell");
+}
+#[kani::proof] #[kani::unwind(34)] fn edge_walk_dd3() { check_internal_walk(3) }
+#[kani::proof] #[kani::unwind(66)] fn edge_walk_dd4() { check_internal_walk(4) }
+#[kani::proof] #[kani::unwind(130)] fn edge_walk_dd5() { check_internal_walk(5) }
+
 /// internal_edge_part(hash, dd, side): the 2^dd descendants lying on that side, ascending
 fn check_edge_part(dd: u8) {
   let h: u64 = kani::any();
